@@ -35,6 +35,10 @@ type CPoint struct{ X, Y int64 }
 // bypasses the registration shows in the bytes and in the call counts)
 type CRatio float64
 
+// CSuit is a registered type whose registered schema is an enum: the library has no codec of its own for enums, a
+// registered codec is the only way to read or write one
+type CSuit int64
+
 // COpt is an optional value in the style of null.Int: its registered schema is a nullable union and its codec
 // decides by itself (Omit) whether a value is written as null -- in every position, omitempty or not
 type COpt struct {
@@ -50,6 +54,7 @@ var customNames = map[reflect.Type]string{
 	reflect.TypeOf(cObjID{}):   "CObjID",
 	reflect.TypeOf(COpt{}):     "COpt",
 	reflect.TypeOf(CRatio(0)):  "CRatio",
+	reflect.TypeOf(CSuit(0)):   "CSuit",
 	reflect.TypeOf(CEmail("")): "CEmail",
 	reflect.TypeOf(CCelsius{}): "CCelsius",
 	reflect.TypeOf(CTags(nil)): "CTags",
@@ -180,6 +185,7 @@ func (c logCodec) Omit(p unsafe.Pointer) bool {
 }
 
 func (c logCodec) New(r *avro.ReadBuf) unsafe.Pointer {
+	codecLog = append(codecLog, logEntry{c.id, c.name, "new"})
 	switch c.name {
 	case "CEmail":
 		return r.Alloc(reflect.TypeOf(CEmail("")))
@@ -193,6 +199,8 @@ func (c logCodec) New(r *avro.ReadBuf) unsafe.Pointer {
 		return r.Alloc(reflect.TypeOf(COpt{}))
 	case "CRatio":
 		return r.Alloc(reflect.TypeOf(CRatio(0)))
+	case "CSuit":
+		return r.Alloc(reflect.TypeOf(CSuit(0)))
 	}
 	return r.Alloc(reflect.TypeOf(CCelsius{}))
 }
@@ -205,7 +213,7 @@ func mkBuilder(id int, name string) avro.CodecBuildFunc {
 		if name == "CCelsius" || name == "CRatio" {
 			return logCodec{Codec: avro.DoubleCodec{}, id: id, name: name}, nil
 		}
-		if name == "CPoint" || name == "COpt" {
+		if name == "CPoint" || name == "COpt" || name == "CSuit" {
 			return logCodec{Codec: avro.Int64Codec{}, id: id, name: name}, nil
 		}
 		return logCodec{Codec: avro.StringCodec{}, id: id, name: name, mark: byte('A' + id%26)}, nil
@@ -310,6 +318,13 @@ type COptTwin struct {
 }
 type CEmailTwin string
 
+type HSuit struct {
+	F CSuit            `json:"f"`
+	P *CSuit           `json:"p"`
+	L []CSuit          `json:"l"`
+	M map[string]CSuit `json:"m"`
+	Z int64            `json:"z"`
+}
 type HRatio struct {
 	F CRatio            `json:"f"`
 	P *CRatio           `json:"p"`
@@ -360,7 +375,9 @@ func holderValues(c *driverCtx) []reflect.Value {
 		lr[i] = CRatio(float64(i) * 0.25)
 	}
 	hr := HRatio{F: 0.25, P: &pr, L: lr, M: map[string]CRatio{"a": 1.5}, O: 2, D: 0.5, G: []float64{1, 2, 3, 4, 5, 6, 7, 8, 9, 10, 11, 12, 13, 14, 15, 16, 17}}
-	vals := []any{he, he2, hc, hc2, ht, hn, hp, HPoint{}, ho, HObjID{}, hop, hop2, hr, HRatio{}}
+	ps := CSuit(2)
+	hs := HSuit{F: 3, P: &ps, L: []CSuit{0, 1, 2, 3}, M: map[string]CSuit{"a": 1}, Z: 4}
+	vals := []any{he, he2, hc, hc2, ht, hn, hp, HPoint{}, ho, HObjID{}, hop, hop2, hr, HRatio{}, hs, HSuit{}}
 	out := make([]reflect.Value, len(vals))
 	for i, v := range vals {
 		p := reflect.New(reflect.TypeOf(v))
@@ -422,7 +439,7 @@ func useAll(c *driverCtx, rs *regState, step string) {
 
 func driveC20(c *driverCtx) error {
 	rs := &regState{builder: map[string]int{}, schema: map[string]string{}}
-	types := map[string]reflect.Type{"CEmail": reflect.TypeOf(CEmail("")), "CCelsius": reflect.TypeOf(CCelsius{}), "CTags": reflect.TypeOf(CTags(nil)), "CPoint": reflect.TypeOf(CPoint{}), "CObjID": reflect.TypeOf(cObjID{}), "COpt": reflect.TypeOf(COpt{}), "CRatio": reflect.TypeOf(CRatio(0))}
+	types := map[string]reflect.Type{"CEmail": reflect.TypeOf(CEmail("")), "CCelsius": reflect.TypeOf(CCelsius{}), "CTags": reflect.TypeOf(CTags(nil)), "CPoint": reflect.TypeOf(CPoint{}), "CObjID": reflect.TypeOf(cObjID{}), "COpt": reflect.TypeOf(COpt{}), "CRatio": reflect.TypeOf(CRatio(0)), "CSuit": reflect.TypeOf(CSuit(0))}
 	nextID := 1
 	register := func(name string) {
 		avro.Register(types[name], mkBuilder(nextID, name))
@@ -457,6 +474,8 @@ func driveC20(c *driverCtx) error {
 	registerSchema("COpt", `["null","long"]`)
 	register("CRatio")
 	registerSchema("CRatio", `{"type":"double","logicalType":"percent"}`)
+	register("CSuit")
+	registerSchema("CSuit", `{"type":"enum","name":"Suit","symbols":["SPADES","HEARTS","DIAMONDS","CLUBS"]}`)
 	useAll(c, rs, "1-registered")
 	// step 2: re-register codecs (the most recent builder wins)
 	register("CEmail")
@@ -467,7 +486,7 @@ func driveC20(c *driverCtx) error {
 	register("CTags")
 	useAll(c, rs, "3-reregistered-schema")
 	// step 4: interleaved further registrations in a seeded order
-	names := []string{"CEmail", "CCelsius", "CTags", "CPoint", "CObjID", "COpt", "CRatio"}
+	names := []string{"CEmail", "CCelsius", "CTags", "CPoint", "CObjID", "COpt", "CRatio", "CSuit"}
 	for k := 0; k < c.pick(3, 80); k++ {
 		n := names[c.rng.Intn(len(names))]
 		register(n)
